@@ -23,16 +23,27 @@ func NewMultiFormatUPCEANReader(hints map[gozxing.DecodeHintType]interface{}) go
 	// @SuppressWarnings("unchecked")
 	possibleFormats, _ := hints[gozxing.DecodeHintType_POSSIBLE_FORMATS].([]gozxing.BarcodeFormat)
 	var readers []upceanDecoder
-	for _, format := range possibleFormats {
-		if format == gozxing.BarcodeFormat_EAN_13 {
-			readers = append(readers, NewEAN13Reader().(*ean13Reader))
-		} else if format == gozxing.BarcodeFormat_UPC_A {
-			readers = append(readers, NewUPCAReader().(*upcAReader))
-		} else if format == gozxing.BarcodeFormat_EAN_8 {
-			readers = append(readers, NewEAN8Reader().(*ean8Reader))
-		} else if format == gozxing.BarcodeFormat_UPC_E {
-			readers = append(readers, NewUPCEReader().(*upcEReader))
+	contains := func(f gozxing.BarcodeFormat) bool {
+		for _, format := range possibleFormats {
+			if format == f {
+				return true
+			}
 		}
+		return false
+	}
+	// The order of the decoders is fixed, whatever the order of the hint: the EAN-8 and UPC-E
+	// decoders search their guard patterns unanchored and can "read" part of a 12/13-digit
+	// symbol, so they must only be tried after the 13-digit decoder has declined it.
+	if contains(gozxing.BarcodeFormat_EAN_13) {
+		readers = append(readers, NewEAN13Reader().(*ean13Reader))
+	} else if contains(gozxing.BarcodeFormat_UPC_A) {
+		readers = append(readers, NewUPCAReader().(*upcAReader))
+	}
+	if contains(gozxing.BarcodeFormat_EAN_8) {
+		readers = append(readers, NewEAN8Reader().(*ean8Reader))
+	}
+	if contains(gozxing.BarcodeFormat_UPC_E) {
+		readers = append(readers, NewUPCEReader().(*upcEReader))
 	}
 
 	if len(readers) == 0 {
